@@ -226,8 +226,10 @@ pub(crate) fn lehmer_step(x: &mut [Word], y: &mut [Word], a: Word, b: Word, c: W
 #[inline]
 pub fn memory_requirement_up_to(lhs_len: usize, rhs_len: usize) -> Layout {
     // Required memory:
-    // - temporary space for the division in the euclidean step
-    div::memory_requirement_exact(lhs_len, rhs_len)
+    // - temporary space for the divisions in the euclidean steps. The operands shrink while the
+    //   algorithm runs and a later dividend can be much longer than its divisor even if lhs and
+    //   rhs have similar lengths, so take the bound for every divisor of at most rhs_len words.
+    div::memory_requirement_exact(lhs_len + rhs_len, rhs_len)
 }
 
 pub(crate) fn gcd_in_place(
